@@ -118,7 +118,10 @@ def evaluate(kind, obj, x, k):
         warnings.simplefilter('error', RuntimeWarning)
         xin = x.copy()
         if kind == 'pm':
-            out = obj.sample(xin, [2.0, 0.5, 1.0], n_samples=2, seed=3, return_df=False)
+            tin = np.array([2.0, 0.5, 1.0])
+            out = obj.sample(xin, tin, n_samples=2, seed=3, return_df=False)
+            if list(tin) != [2.0, 0.5, 1.0]:
+                raise AssertionError('time array modified')
         elif k == 'value' or (k == 'sample') or (k == 'pointwise' and kind in ('lp', 'lp_same', 'hlp', 'fp', 'ctrl')):
             out = obj(xin)
         elif k == 'pointwise':
